@@ -1365,6 +1365,12 @@ package stackage
 //@ tags C11,C09,C18
 //@ ensures[C18:lvl.String.all] r == 0xffff ==> result == "ALL"
 //@ ensures[C18:lvl.String.none] r == 0x0000 ==> result == "NONE"
+//@ let nm := G_logLevelNames
+//@ ensures[C18:lvl.String.names] result == lvlStr(Map_BV16_Str_has, Map_BV16_Str_val, nm, r)
+//@ loop 1 invariant 0 <= i && i <= 16
+//@ loop 1 invariant len(levels) == 0 && cap(levels) == 0 && arr(levels) == 0 || fresh(arr(levels)) && okslice(levels, alloc)
+//@ loop 1 invariant len(levels) == lvlCnt(Map_BV16_Str_has, nm, r, i)
+//@ loop 1 invariant joinRow(Mem_Str[arr(levels)], off(levels), len(levels), ",") == lvlJoin(Map_BV16_Str_has, Map_BV16_Str_val, nm, r, i)
 //@ modifies fresh
 //@ loop 1 invariant arr(levels) == 0 || fresh(arr(levels))
 //@ loop 1 invariant forall a :: 0 <= a && a < old(alloc) ==> Mem_Str[a] == old(Mem_Str[a])
@@ -1967,6 +1973,7 @@ package stackage
 //@ let w := F_logSystem_lvl[F_nodeConfig_log[cfgOf(r)]]
 //@ ensures[C18:LogLevels.all] r != nil && w == 0xffff ==> l == "ALL"
 //@ ensures[C18:LogLevels.none] r != nil && w == 0x0000 ==> l == "NONE"
+//@ ensures[C18:LogLevels.names] r != nil ==> l == lvlStr(Map_BV16_Str_has, Map_BV16_Str_val, G_logLevelNames, w)
 //@ ensures[C17:LogLevels.nil] r == nil ==> l == ""
 //@ modifies fresh
 
@@ -1977,5 +1984,6 @@ package stackage
 //@ let w := F_logSystem_lvl[F_nodeConfig_log[F_condition_cfg[r]]]
 //@ ensures[C18:Cond.LogLevels.all] r != nil && w == 0xffff ==> l == "ALL"
 //@ ensures[C18:Cond.LogLevels.none] r != nil && w == 0x0000 ==> l == "NONE"
+//@ ensures[C18:Cond.LogLevels.names] r != nil ==> l == lvlStr(Map_BV16_Str_has, Map_BV16_Str_val, G_logLevelNames, w)
 //@ ensures[C17:Cond.LogLevels.nil] r == nil ==> l == ""
 //@ modifies fresh
